@@ -14,7 +14,7 @@ Definition dec (n : nat) : nat := Nat.pred n.
 Definition res_eqb (a b : res) : bool :=
   Nat.eqb (eps a) (eps b) && Nat.eqb (loc_tasks a) (loc_tasks b) && Nat.eqb (spa_tasks a) (spa_tasks b) && Nat.eqb (fac_tasks a) (fac_tasks b) && Bool.eqb (exited a) (exited b).
 
-Inductive llabel := Lab (l : label) | Exit.
+Inductive llabel := Lab (l : label) | Exit | Late (e : event).   (* Late: an event raised on behalf of a connection the manager has already abandoned *)
 Definition in_loc (s : mst) : bool := match ppc s with PLoc _ => true | _ => false end.
 
 (* the connection's and the facade's part: a spa object appears (its endpoint is opened, its tasks started) or is disconnected *)
@@ -46,6 +46,11 @@ Definition lstep (x : mst * res) (ll : llabel) : option (mst * res) :=
                     end in
           Some (s', conn_effects s s' r2)
       end
+  | Late e =>
+      (* e.g. the handshake coroutine of a connection that was reset under it reports its next step or its exhausted retries:
+         dropped when a disconnected spa stays silent - otherwise it goes through the event switch like any other event *)
+      if spa_silent_after_disconnect then Some (s, r)
+      else let '(s', _) := handle FUEL s e in Some (s', conn_effects s s' r)
   | Exit =>
       (* __aexit__: the pump is cancelled (inside discover() if it is there), optional reset, every task is gathered *)
       let r1 := if in_loc s && discover_cleans_up_in_finally then mkR (dec (eps r)) (loc_tasks r) (spa_tasks r) (fac_tasks r) false else r in
@@ -62,7 +67,7 @@ Fixpoint add_allL (new seen acc : list (mst * res)) : list (mst * res) * list (m
   | [] => (seen, acc)
   | x :: r => if memL x seen then add_allL r seen acc else add_allL r (x :: seen) (x :: acc)
   end.
-Definition llabels : list llabel := Exit :: map Lab all_labels.
+Definition llabels : list llabel := Exit :: map Late all_events ++ map Lab all_labels.
 Definition succsL (x : mst * res) : list (mst * res) :=
   flat_map (fun l => match lstep x l with Some y => [y] | None => [] end) llabels.
 Fixpoint exploreL (fuel : nat) (frontier seen : list (mst * res)) : list (mst * res) :=
